@@ -7,6 +7,8 @@ machinery - the refactoring is supposed to leave every property intact.
 usage: benign.py [--dir DIR] [--tests] [--jobs N] [--json FILE] [ids...]"""
 import argparse, json, os, re, shutil, subprocess, sys, tempfile
 from concurrent.futures import ThreadPoolExecutor
+sys.path.insert(0, os.path.dirname(os.path.abspath(__file__)))
+from _corpus import tree_with_patch, remove
 
 ap = argparse.ArgumentParser()
 ap.add_argument("--dir", default="/verif/benign")
@@ -23,26 +25,18 @@ def one(sid):
     patch = os.path.join(d, "patch.diff")
     if not os.path.exists(patch):
         return sid, None, []
-    wt = tempfile.mkdtemp(prefix="ubben_"); os.rmdir(wt)
     out = tempfile.mkdtemp(prefix="ubout_")
-    for attempt in range(8):  # concurrent `git worktree add` calls can collide on the administrative files
-        if subprocess.run(["git", "-C", "/repo", "worktree", "add", "-q", "--detach", wt, "HEAD"], capture_output=True).returncode == 0:
-            break
-        import time as _t
-        _t.sleep(0.3 * (attempt + 1))
-    else:
-        raise RuntimeError("git worktree add failed")
+    wt, envx, base, err = tree_with_patch(d, "ubben_")
     try:
-        r = subprocess.run(["git", "-C", wt, "apply", patch], capture_output=True, text=True)
-        if r.returncode:
-            return sid, "noapply", [r.stderr.strip()[:200]]
+        if err:
+            return sid, "noapply", [err]
         if a.tests:
             env = dict(os.environ, PYTHONPATH=os.path.join(wt, "src"))
             t = subprocess.run(["/venv/bin/python", "-m", "pytest", "-q", "-p", "no:cacheprovider", "--timeout=900"], env=env, capture_output=True, text=True, cwd=wt)
             tail = t.stdout.strip().splitlines()[-1] if t.stdout.strip() else ""
             if "81 passed" not in tail or t.returncode:
                 return sid, "testsfail", [tail]
-        env = dict(os.environ, UBCHECK_SRC=os.path.join(wt, "src"), UBCHECK_OUT=out)
+        env = dict(os.environ, UBCHECK_SRC=os.path.join(wt, "src"), UBCHECK_OUT=out, **envx)
         r = subprocess.run(["/venv/bin/python", "-m", "ubcheck", "all"], cwd="/verif", env=env, capture_output=True, text=True)
         res, detail, cur = {}, [], []
         for line in r.stdout.splitlines():
@@ -60,7 +54,7 @@ def one(sid):
             res["?"] = "crash " + r.stderr[-300:]
         return sid, res, detail
     finally:
-        subprocess.run(["git", "-C", "/repo", "worktree", "remove", "--force", wt])
+        remove(wt)
         shutil.rmtree(out, ignore_errors=True)
 
 
